@@ -24,6 +24,11 @@ ASSUMPTIONS = [
 
 
 def operator(fam, n, cplx, seed):
+    base, _, scale = fam.partition("@")  # "@tiny" / "@huge": the same family at scale 2^-45 / 2^40 (every tolerance of C15 is relative)
+    if scale:
+        _, M, lam, V = operator(base, n, cplx, seed)
+        f = {"tiny": 2.0**-45, "huge": 2.0**40}[scale]
+        return ops.Dense(M * f), M * f, lam * f, V
     if fam == "nonnormal":
         lam = np.linspace(1, 6, n) * np.where(np.arange(n) % 3 == 2, -1, 1)
         if cplx:
@@ -198,7 +203,7 @@ def cases(tier, seed):
     out = []
     small = [1, 2, 3, 4, 5, 6]
     big = [12, 40] if tier == "quick" else [12, 40, 200]
-    for fam, cplxs in (("nonnormal", (False, True)), ("normal", (True, )), ("int", (False, True))):
+    for fam, cplxs in (("nonnormal", (False, True)), ("normal", (True, )), ("int", (False, True)), ("nonnormal@tiny", (False, True)), ("normal@huge", (True, ))):
         for n in small + (big if fam != "int" else []):
             ms = list(range(1, n + 4)) if n <= 6 else sorted({1, 2, 5, n, n + 1, n + 5, 1000})
             for cplx in cplxs:
